@@ -402,11 +402,21 @@ static void op_nlp(Json &out) {
         fp.g           = [&](crvec x, rvec g) { P.eval_g(x, g); };
         fp.grad_g_prod = [&](crvec x, crvec y, rvec g) { P.eval_grad_g_prod(x, y, g); };
         if (P.has(C20_GRAD_GI)) fp.grad_gi = [&](crvec x, index_t i, rvec g) { P.eval_grad_gi(x, i, g); };
-        if (P.has(C20_JAC_G)) fp.jac_g = [&](crvec x, rmat J) { P.eval_jac_g(x, Eigen::Map<vec>(J.data(), J.size())); };
+        // the user's matrix-valued callbacks address their argument by (row, column): a wrapper that hands over a view of the wrong
+        // shape puts the entries in the wrong places (the dense values are column-major m x n resp. n x n)
+        auto fill = [](rmat M, length_t rows, length_t cols, const vec &vals) {
+            if (M.rows() != rows || M.cols() != cols) {
+                M.setConstant(alpaqa::NaN<config_t>);
+                return;
+            }
+            for (index_t c = 0; c < cols; ++c)
+                for (index_t r = 0; r < rows; ++r) M(r, c) = vals(r + c * rows);
+        };
+        if (P.has(C20_JAC_G)) fp.jac_g = [&, fill](crvec x, rmat J) { vec t = Eigen::Map<const vec>(J.data(), J.size()); P.eval_jac_g(x, t); fill(J, m, n, t); };
         if (P.has(C20_HESS_L_PROD)) fp.hess_L_prod = [&](crvec x, crvec y, real_t s, crvec v, rvec Hv) { P.eval_hess_L_prod(x, y, s, v, Hv); };
-        if (P.has(C20_HESS_L)) fp.hess_L = [&](crvec x, crvec y, real_t s, rmat H) { P.eval_hess_L(x, y, s, Eigen::Map<vec>(H.data(), H.size())); };
+        if (P.has(C20_HESS_L)) fp.hess_L = [&, fill](crvec x, crvec y, real_t s, rmat H) { vec t = Eigen::Map<const vec>(H.data(), H.size()); P.eval_hess_L(x, y, s, t); fill(H, n, n, t); };
         if (P.has(C20_HESS_PSI_PROD)) fp.hess_ψ_prod = [&](crvec x, crvec y, crvec Σ, real_t s, crvec v, rvec Hv) { P.eval_hess_ψ_prod(x, y, Σ, s, v, Hv); };
-        if (P.has(C20_HESS_PSI)) fp.hess_ψ = [&](crvec x, crvec y, crvec Σ, real_t s, rmat H) { P.eval_hess_ψ(x, y, Σ, s, Eigen::Map<vec>(H.data(), H.size())); };
+        if (P.has(C20_HESS_PSI)) fp.hess_ψ = [&, fill](crvec x, crvec y, crvec Σ, real_t s, rmat H) { vec t = Eigen::Map<const vec>(H.data(), H.size()); P.eval_hess_ψ(x, y, Σ, s, t); fill(H, n, n, t); };
         TEP te{fp};
         run_nlp(out, te, ob, a);
     } else if (kind == "dl" || kind == "dlwrap") {
